@@ -9,6 +9,7 @@ CONSTANTS
   CopyFix = TRUE
   Gen = FALSE
   LateFlag = FALSE
+  NoRebind = FALSE
 SPECIFICATION Spec
 INVARIANT RuleOK
 CHECK_DEADLOCK FALSE
